@@ -209,3 +209,11 @@ Proof.
               ext (dist s) s W) as (e1 & e2 & E & HB); [lia|].
   exists e1, e2. split; auto. unfold exec. rewrite exec_from_app. exact HB.
 Qed.
+
+(* ... and a consumer whose poll has an event to report moves on with its next step *)
+Lemma ready_runs : forall s, cp s = C_poll -> event_ready s = true -> cp (step C s) = C_drain06.
+Proof.
+  intros [v n pcap c06 ins taken loc deliv pipe ev08 q06 qd06 pp cp takes events empties] Hc He;
+    simpl in *; subst cp. unfold event_ready in He; simpl in He.
+  destruct v; apply andb_true_iff in He as [E1 E2]; rewrite E1, E2; reflexivity.
+Qed.
